@@ -194,6 +194,11 @@ def run(rep):
                construct='resolve-first')
 
     # ---- B3 (Python side) -------------------------------------------------------
+    from . import sem as _sem
+    from ..pyfront import find_def as _fd
+    _amod = repo.module('adapter.py')
+    for fn_ in ('lookup', 'lookup1', 'adapter_hook', 'lookupAll', 'subscriptions'):
+        _sem.fetch_order_spec(rep, 'B3', _fd(_amod, 'LookupBase.' + fn_), 'LookupBase.' + fn_)
     mod = repo.module('adapter.py')
     for meth, unc in (('lookup', '_uncached_lookup'),
                       ('lookupAll', '_uncached_lookupAll'),
